@@ -164,6 +164,15 @@ def cases(tier):
             out.append(dict(kind="bad-line-obs-text", stream=b"GET / " + ver + b"\r\n" + line + b"\r\nHost: h\r\n\r\n" + S))
             out.append(dict(kind="bad-line-obs-text", stream=b"GET / " + ver + b"\r\nHost: h\r\n" + line + b"\r\n\r\n" + S))
         out.append(dict(kind="bad-line-obs-text", stream=ch + b"0\r\n" + line + b"\r\n\r\n" + S))
+    # inputs that make a backtracking matcher work hard: long runs that almost match
+    for N in (30, 200, 3000):
+        x = b"x" * N
+        for ext in (b';a="' + x, b';a="' + x + b'"junk', b';a="' + b"\\x" * N, b";a=" + x + b"\x00", b";" + x + b'="' + x, b';a="' + x + b"\x7f" + b'"', b";a" * N + b";", b';a="' + b" \t" * N + b"\x00"):
+            out.append(dict(kind="pathological", stream=ch + b"4" + ext + b"\r\nabcd\r\n0\r\n\r\n" + S, max_body=10 ** 6))
+        for line in (b"X:" + b" \t" * N + b"\x00", b"X: " + b"a " * N + b"\x01", b"X" * N + b" : v", b"X: " + x + b"\r", b"X:" + b" " * N):
+            out.append(dict(kind="pathological", stream=b"GET / HTTP/1.1\r\n" + line + b"\r\n\r\n" + S, max_header=10 ** 6))
+        for rl in (b"GET " + b"http://" + b"a:" * N + b"/ HTTP/1.1", b"GET /" + b"%" * N + b" HTTP/1.1", b"GET " + b"/" * N + b" HTTP/1.1 ", b"GET http://" + x + b":" + b"9" * N + b"/ HTTP/1.1"):
+            out.append(dict(kind="pathological", stream=rl + b"\r\nHost: h\r\n\r\n" + S, max_header=10 ** 6))
     # odd targets that reach urlsplit / unquote
     for t in (b"http://[/x", b"http://[::1/x", b"//[", b"http://h:99999999/x", b"/%", b"/%zz", b"/%00", b"http://\xff/", b"*", b"/" + b"%41" * 50, b"http://[v1.a]/", b"http://[::1]:x/", b"h://[", b"[", b"/\xff\xfe", b"?", b"#", b"http://h/#?"):
         for ver in (b" HTTP/1.1", b" HTTP/1.0", b""):
